@@ -101,10 +101,10 @@ Definition pass_if_t (c : ctx) (s : tstr) : (tstr + error) * list failure :=
 Definition pass_each_t (legacy : bool) (c : ctx) (s : tstr) : (tstr + error) * list failure :=
   tsub PEach (fun (m : str * tstr) _ =>
                 let '(x, body) := m in
-                match lookup c x with
-                | Some (VList items) =>
+                match lookup_seq c x with
+                | Some items =>
                     let '(r, lg) := loop_items_t legacy body (length items) O items in (inl r, lg)
-                | _ => (inl [], [])
+                | None => (inl [], [])
                 end)
        (scan (m_each tcode) O s).
 
@@ -280,47 +280,78 @@ Definition item_raw_ok (it : item) : bool :=
   match it with
   | IStr s => nosent s
   | IDict kvs => forallb (fun kv => nosent (fst kv) && nosent (snd kv)) kvs
+  | IOpaque s r => nosent s && nosent r
+  | _ => true
   end.
 Definition value_raw_ok (v : value) : bool :=
-  match v with VStr s => nosent s | VList l => forallb item_raw_ok l | _ => true end.
+  match v with
+  | VStr s | VOpaque s _ => nosent s
+  | VList l | VTuple l => forallb item_raw_ok l
+  | _ => true
+  end.
 Definition ctx_raw_ok (c : ctx) : bool := forallb (fun kv => value_raw_ok (snd kv)) c.
 
 (* ------------------------------------------------------------------ *)
 (* histories on one Ribosome instance                                    *)
-(* What a Ribosome keeps between calls: the registered templates, the filter table (the
+(* What a Ribosome keeps between calls: the registry (name -> mRNA), the filter table (the
    built-in one here), the strict/silent flags and two statistics counters
    (_translations_count, _errors_count; read only by get_statistics()).  translate() reads
-   the templates, the filters and strict, and nothing else: in particular it reads neither
-   counter and keeps no per-render state on the instance.  The model's instance state has
-   the templates, the flag and ONE counter standing for the statistics (the number of
-   top-level calls; the real counters also count nested translates and are not observed). *)
+   the registry, the filters and strict, and nothing else: it reads neither counter, keeps no
+   per-render state on the instance, and never looks at an mRNA's own .name (the registry is
+   keyed by the REGISTERED name; Protein.source_mrna is not observed).  The model's instance
+   state has the registry, the flag and ONE counter standing for the statistics (the number
+   of operations; the real counters also count nested translates and are not observed). *)
 Record instance := mkInstance {
   i_templates : list (str * template);
   i_strict : bool;
   i_calls : Z }.
 
-Definition call := (template * ctx)%type.
+Inductive op :=
+| OpRegister (n : str) (t : template)   (* create_template(seq, n) / register_template(mRNA(seq, any name)[, name=n]) *)
+| OpRender (t : template) (c : ctx)     (* synthesize(seq, **c) / translate(mRNA(seq, any name) not registered, **c) *)
+| OpTranslate (n : str) (c : ctx).      (* translate(n, **c) by registered name *)
 
-(* one top-level synthesize(main, **cx) on the instance: new state, outcome, taint outcome *)
-Definition step (i : instance) (cl : call) : instance * (outcome * (toutcome * list failure)) :=
-  let Ts := print_templates (i_templates i) in
-  let s := print (fst cl) in
-  (mkInstance (i_templates i) (i_strict i) (i_calls i + 1),
-   (render_impl (i_strict i) Ts (snd cl) s, render_taint (i_strict i) Ts (snd cl) s)).
-
-Fixpoint run_calls (i : instance) (cls : list call) : list (outcome * (toutcome * list failure)) :=
-  match cls with
-  | [] => []
-  | cl :: rest => let '(i', o) := step i cl in o :: run_calls i' rest
+(* self.templates[n] = t : an existing key keeps its position *)
+Fixpoint reg_set (T : list (str * template)) (n : str) (t : template) : list (str * template) :=
+  match T with
+  | [] => [(n, t)]
+  | (k, u) :: T' => if str_eqb k n then (k, t) :: T' else (k, u) :: reg_set T' n t
   end.
 
-(* case: registered templates, the calls made on ONE instance in order, strict *)
-Definition case := (list (str * template) * list call * bool)%type.
+Inductive result :=
+| RRegistered
+| RUnknown (n : str)                                          (* ValueError("Unknown template: n") *)
+| RRender (t : template) (c : ctx) (o : outcome) (ot : toutcome * list failure).
 
-(* the reference rendering (both modes, delimiter-free or not) whenever the templates are of the
-   grammar and the context is sentinel-free *)
-Definition spec_row (T : list (str * template)) (strict : bool) (cl : call) : list Z :=
-  let '(main, cx) := cl in
+(* what an operation answers on registry T, and the registry afterwards: pure functions *)
+Definition result_on (strict : bool) (T : list (str * template)) (o : op) : result :=
+  let render t c :=
+    RRender t c (render_impl strict (print_templates T) c (print t))
+                (render_taint strict (print_templates T) c (print t)) in
+  match o with
+  | OpRegister _ _ => RRegistered
+  | OpRender t c => render t c
+  | OpTranslate n c => match lookup T n with Some t => render t c | None => RUnknown n end
+  end.
+Definition registry_after (T : list (str * template)) (o : op) : list (str * template) :=
+  match o with OpRegister n t => reg_set T n t | _ => T end.
+
+Definition step (i : instance) (o : op) : instance * result :=
+  (mkInstance (registry_after (i_templates i) o) (i_strict i) (i_calls i + 1),
+   result_on (i_strict i) (i_templates i) o).
+
+Fixpoint run_ops (i : instance) (os : list op) : list (list (str * template) * result) :=
+  match os with
+  | [] => []
+  | o :: rest => let '(i', r) := step i o in (i_templates i, r) :: run_ops i' rest
+  end.
+
+(* case: initially registered templates, the operations on ONE instance in order, strict *)
+Definition case := (list (str * template) * list op * bool)%type.
+
+(* the reference rendering (both modes, delimiter-free or not) whenever the CURRENT registry and
+   the template are of the grammar and the context is sentinel-free *)
+Definition spec_row (T : list (str * template)) (strict : bool) (main : template) (cx : ctx) : list Z :=
   if well_formed main && forallb (fun nt => well_formed (snd nt)) T && ctx_raw_ok cx then
     match render_spec strict T cx main with
     | SOk t _ => 1 :: t
@@ -330,14 +361,19 @@ Definition spec_row (T : list (str * template)) (strict : bool) (cl : call) : li
     end
   else [0].
 
-(* rows per call: error; text; warnings; opacity failures (origin*16+pass, sorted);
-                  reference rendering when applicable; plain model = erased taint model *)
-Definition call_rows (T : list (str * template)) (strict : bool) (cl : call)
-                     (o : outcome * (toutcome * list failure)) : list (list Z) :=
-  let plain := obs_plain (fst o) in
-  plain ++ [pairs_row (snd (snd o)); spec_row T strict cl; [b2z (zll_eqb plain (obs_taint (fst (snd o))))]].
+(* rows per render: error; text; warnings; opacity failures (origin*16+pass, sorted);
+                    reference rendering when applicable; plain model = erased taint model.
+   a registration: one row [7]; translate of an unregistered name: [5; name] and five empty rows *)
+Definition result_rows (strict : bool) (Tr : list (str * template) * result) : list (list Z) :=
+  let '(T, r) := Tr in
+  match r with
+  | RRegistered => [[7]]
+  | RUnknown n => [5 :: n; []; []; []; [0]; [1]]
+  | RRender t c o ot =>
+      let plain := obs_plain o in
+      plain ++ [pairs_row (snd ot); spec_row T strict t c; [b2z (zll_eqb plain (obs_taint (fst ot)))]]
+  end.
 
 Definition run_case (c : case) : list (list Z) :=
-  let '(T, cls, strict) := c in
-  concat (map (fun co => call_rows T strict (fst co) (snd co))
-              (combine cls (run_calls (mkInstance T strict 0) cls))).
+  let '(T, os, strict) := c in
+  concat (map (result_rows strict) (run_ops (mkInstance T strict 0) os)).
